@@ -103,6 +103,44 @@ var beforeEndobj = []string{"\n", "\n", " ", "\r\n", "\r"}
 // every position), small integer objects in between, a classic table and trailer or a
 // cross-reference stream.
 func (g *generator) kindsDoc(pad, rot, minSize int, fillers int, xrefStream bool) *doc {
+	d := g.layoutDoc(kindItems(), pad, rot, minSize, fillers, xrefStream)
+	d.class = fmt.Sprintf("value-kinds pad=%d rot=%d xrefstream=%v", pad, rot, xrefStream)
+	return d
+}
+
+// the bytes a stream's data may end in
+var eolTails = []string{"\n", "\r\n", "\r", "\n\n", "\r\n\r\n", "\n\r", "\r\r", " \n", "\r\n\n"}
+
+// eolTailDoc: small streams whose data ends in every combination of end-of-line bytes, with
+// /Length in an object before and after the stream (minSize 0: every item once)
+func (g *generator) eolTailDoc() *doc {
+	var items []item
+	for i, tail := range eolTails {
+		for _, form := range []string{"before", "after", "direct"} {
+			items = append(items, stm("stream-data-ends-in-eol", pdf.Dict{"K": pdf.Integer(i)}, fmt.Sprintf("data %d%s", i, tail), form))
+		}
+	}
+	// three passes, so that every item meets each of the three end-of-line markers in front
+	// of endstream (LF, CR LF, CR) the layout cycles through
+	d := g.layoutDoc(append(append(items, items[1:]...), items[2:]...), 0, 0, 0, 0, false)
+	d.class = "stream-data-ends-in-eol (laid out)"
+	return d
+}
+
+// eolTailWriterDoc: the Writer, a sink that cannot seek, a body of n bytes + tail
+func (g *generator) eolTailWriterDoc(tail string, n int) *doc {
+	body := append(g.text(n), tail...)
+	if k := n - 1; body[k] == '\n' || body[k] == '\r' {
+		body[k] = 'z'
+	}
+	vals := []pdf.Object{pdf.String("first"), nil, pdf.Name("Third")}
+	d := g.writeRaw(pdf.V1_4, n%2 == 0, vals, [][]byte{nil, body, nil}, false)
+	d.class = fmt.Sprintf("stream-data-ends-in-eol (Writer) tail=%q", tail)
+	return d
+}
+
+// layoutDoc: see kindsDoc; minSize 0 lays out every item exactly once
+func (g *generator) layoutDoc(items []item, pad, rot, minSize int, fillers int, xrefStream bool) *doc {
 	d := &doc{}
 	var buf bytes.Buffer
 	buf.WriteString("%PDF-1.7\n%\xe2\xe3\xcf\xd3\n")
@@ -139,36 +177,38 @@ func (g *generator) kindsDoc(pad, rot, minSize int, fillers int, xrefStream bool
 		for k, v := range it.expect.(pdf.Dict) {
 			dict[k] = v
 		}
-		want := digest("stream" + pdf.AsString(dict) + string(it.body))
+		prefix := "stream" + pdf.AsString(dict)
+		want := digest(prefix + string(it.body))
 		hdr := func() string {
 			eolAfterStream := []string{"\n", "\r\n"}[counter%2]
 			return pdf.AsString(dict) + []string{"\n", " ", "\r\n"}[counter%3] + "stream" + eolAfterStream
 		}
 		tail := []string{"\nendstream", "\r\nendstream", "\rendstream"}[counter%3]
+		markerLF := counter%3 == 0
 		switch it.length {
 		case "direct":
 			dict["Length"] = pdf.Integer(len(it.body))
-			put(hdr()+string(it.body)+tail, want, it.kind)
+			put(hdr()+string(it.body)+tail, want, it.kind).eolTail(prefix, it.body, markerLF)
 		case "before":
 			put(fmt.Sprint(len(it.body)), valueDigest(pdf.Integer(len(it.body))), "integer (a /Length)")
 			dict["Length"] = pdf.NewReference(uint32(num), 0)
-			put(hdr()+string(it.body)+tail, want, it.kind)
+			put(hdr()+string(it.body)+tail, want, it.kind).eolTail(prefix, it.body, markerLF)
 		case "after":
 			dict["Length"] = pdf.NewReference(uint32(num+2), 0)
 			rc := put(hdr()+string(it.body)+tail, want, it.kind)
+			rc.eolTail(prefix, it.body, markerLF)
 			lrc := put(fmt.Sprint(len(it.body)), valueDigest(pdf.Integer(len(it.body))), "integer (a /Length)")
 			rc.lenHdrEnd = lrc.start + len(fmt.Sprintf("%d 0 obj", num))
 			rc.lenEnd = lrc.end
 		}
 	}
-	items := kindItems()
-	for round := 0; buf.Len() < minSize; round++ {
+	for round := 0; buf.Len() < minSize || (minSize == 0 && round == 0); round++ {
 		for i := range items {
 			putVal(items[(i+rot+round*7)%len(items)])
 			for f := 0; f < fillers; f++ {
 				put(fmt.Sprint(counter*37%1000), valueDigest(pdf.Integer(counter*37%1000)), "integer (filler)")
 			}
-			if buf.Len() >= minSize {
+			if minSize > 0 && buf.Len() >= minSize {
 				break
 			}
 		}
@@ -209,7 +249,6 @@ func (g *generator) kindsDoc(pad, rot, minSize int, fillers int, xrefStream bool
 	}
 	fmt.Fprintf(&buf, "\nstartxref\n%d\n%%%%EOF\n", xpos)
 	d.data = buf.Bytes()
-	d.class = fmt.Sprintf("value-kinds pad=%d rot=%d xrefstream=%v", pad, rot, xrefStream)
 	return d
 }
 
